@@ -164,7 +164,9 @@ pub fn angle_value(i: usize, j: usize, k: usize, coordinates: &[Point]) -> f64 {
     let r_ij: Vector3D = &coordinates[i] - &coordinates[j];
     let r_kj: Vector3D = &coordinates[k] - &coordinates[j];
 
-    (r_ij.dot(&r_kj) / (r_ij.length() * r_kj.length())).acos()
+    (r_ij.dot(&r_kj) / (r_ij.length() * r_kj.length()))
+        .clamp(-1., 1.)
+        .acos()
 }
 
 #[cfg(test)]
